@@ -96,6 +96,12 @@ where
     }
 
     fn map_and_write_current_buffer(&mut self) -> io::Result<()> {
+        // Without buffered data there is nothing to map: mapping "no data" (i.e. on drop after the
+        // last marker byte) would emit output, such as a dangling prefix, for input that never existed.
+        if self.buffer.is_empty() {
+            return Ok(());
+        }
+
         match self.inner {
             Some(ref mut inner) => inner.write_all(&(self.mapping_fn)(mem::take(&mut self.buffer))),
             None => Ok(()),
